@@ -408,6 +408,9 @@ var _ = pr.AutoF
 //@ func tableLayout$1
 //@   props C13
 //@   modifies anything
+// CSS 2.1 §17.6.1: rows are separated by the vertical border-spacing: the next row starts one spacing below the
+// bottom of this one, whichever cells end in this row (none, when every cell spans further down), unless the row was broken
+//@   assert after breakCell#1: nextPositionY == row.PositionY + pr.VV(row.Height) + ite(resumeAt == nil, borderSpacingY, 0)
 //@   unclaimed call-*-pre1 "preconditions of geometry readers and break classifiers on boxes under layout (resolved margins, validated break values, non-nil context): established by earlier layout steps, not tracked through the box tree"
 // a cell starts at the left edge of its leftmost column: its first column in a left-to-right table, its LAST
 // spanned column in a right-to-left one (column positions decrease with the column index there)
@@ -686,3 +689,14 @@ func vBreakLineOrphansWidows() (int, []string) {
 //@   modifies anything
 //@   unclaimed call-*-pre* "box, style and page-maker accessors"
 //@   return 1 ensures[blank-page-passes-the-request-on] pageType.Blank ==> result2 == pageMaker[pageNumber-1].InitialNextPage && result1 == previousResumeAt
+
+// CSS 2.1 §10.8.1: the height of a line box covers at least the strut of the box it is computed for: from its
+// baseline minus its ascent down by its MARGIN height (the half-leading lives in the margins of inline boxes, so
+// the margin height is the line-height, the border height only the font size); the contents can only extend it
+//@ func alignedSubtreeVerticality
+//@   props C11
+//@   modifies anything
+//@   unclaimed call-*-pre* "the margins, borders, paddings and height of a laid-out inline-level box are resolved"
+//@   assert after top#1: top == baselineY - pr.VV(box.Box().Baseline)
+//@   assert after bottom#1: bottom == top + box.Box().MarginHeight()
+//@   shows[covers-the-strut] result1 <= top && result0 >= bottom
